@@ -218,6 +218,27 @@ def check_lottery(rng, nr, two_d):
             v = chk('lottery does not preserve the mean of the policy', (fwd * g.reshape(gsh)).sum(), (D * p).sum(), inp, sig)
             if v:
                 return v
+    # the monotone variants of the lottery builders (for policies that are increasing along the grid dimension, inside or outside the grid) give the same operator
+    ps = [np.sort(p, axis=-1) if k == len(pols) - 1 else np.sort(p, axis=-2) for k, p in enumerate(pols)]
+    from lib import het as _H
+    cs = [_H.coords(g, p) for g, p in zip(grids, ps)]          # independent numpy coordinates (least i with q <= x[i+1], capped)
+    Fm, _ = dense_lottery(ex, grids, [c[0] for c in cs], [c[1] for c in cs])
+    for fam in ('het_support', 'law_of_motion'):
+        try:
+            if not two_d:
+                L = hs.lottery_1d(ps[0], grids[0], monotonic=True) if fam == 'het_support' else lom.lottery_1d(ps[0], grids[0], monotonic=True)
+            else:
+                continue         # the 2-D builders document that no monotone 2-D routine exists
+        except TypeError:
+            continue
+        fwd = L.forward(D) if fam == 'het_support' else L @ D
+        exp = L.expectation(X) if fam == 'het_support' else L.T @ X
+        sig = dict(op=inp['kind'], family=fam, monotonic=True)
+        v = chk(f'{fam} monotone lottery forward differs from the dense reference', fwd.ravel(), Fm @ D.ravel(), inp, sig) or \
+            chk(f'{fam} monotone lottery expectation is not the adjoint of forward', exp.ravel(), Fm.T @ X.ravel(), inp, sig) or \
+            chk('monotone lottery does not preserve the mean of the policy', (fwd * grids[0].reshape([1] * len(ex) + [len(grids[0])])).sum(), (D * ps[0]).sum(), inp, sig)
+        if v:
+            return v
     # policy shock = derivative (central difference in the policy; exact up to the h^2 term in 2-D)
     das = [nr.normal(size=shape) * 0.1 for _ in grids]
     sh = (hs.lottery_1d(pols[0], grids[0]) if not two_d else hs.lottery_2d(pols[0], pols[1], grids[0], grids[1])).forward_shockable(D)
